@@ -1021,7 +1021,8 @@ impl Engine {
         let chainlen = pre.target_chain.len() as u64;
         let cur_len = self.m.nodes[hf.node].data.len() as u64;
         let end = hf.off as u64 + len as u64;
-        let need_total = ((end.max(cur_len) + cb - 1) / cb).max(1);
+        // (an empty write stores nothing and therefore needs nothing)
+        let need_total = if len == 0 { chainlen } else { ((end.max(cur_len) + cb - 1) / cb).max(1) };
         let need = need_total.saturating_sub(chainlen);
         let free = pre.free as u64;
         let data = fsx::payload(tag, 0, len);
